@@ -484,6 +484,9 @@ def l8b(ctx: Ctx):
     win = rf"mid\$\({hay},{v},len\({pat}\)\)"
     okw = re.fullmatch(rf"if(?:{pat}={win}|{win}={pat})then", texts[ci]) is not None
     ctx.ob("ecb_instr:window", okw, "" if okw else f"`{stmts[ci].text.strip()}` does not compare the pattern with exactly LEN(pattern) characters at the candidate position", file=LIB_REL, line=stmts[ci].line, witness="" if okw else 'INSTR(1,"ABCD","BC")')
+    # the result is only ever 0 (no match) or a scanned position: any other store short-cuts the scan
+    others = [(stmts[i].line, stmts[i].text.strip()) for i, t in enumerate(texts) if re.match(rf"{out}:?=", t) and not re.fullmatch(rf"{out}:?=0(\.0*)?", t) and not re.fullmatch(rf"{out}:?={v}", t)]
+    ctx.ob("ecb_instr:result-is-position", not others, "" if not others else f"`{others[0][1]}` (line {others[0][0]}) gives INSTR a result that is neither 0 nor a position found by the scan: the start index / the comparison is bypassed for some operands", file=LIB_REL, line=others[0][0] if others else p.line, witness="" if not others else 'INSTR(2,"AB","AB")')
     asg = next((i for i, t in enumerate(texts) if i > ci and re.fullmatch(rf"{out}:?={v}", t)), None)
     oka = asg is not None
     ctx.ob("ecb_instr:records-position", oka, "" if oka else "a match does not store the candidate position in the result", file=LIB_REL, line=stmts[ci].line)
